@@ -186,113 +186,154 @@ Proof.
 Qed.
 End StrictIsPython.
 
+
 (* ================= the interpreter computes the Python meaning ================= *)
-Lemma NoDup_app_l {A} (xs ys : list A) : NoDup (xs ++ ys) -> NoDup xs.
-Proof. induction xs as [|x xs IH]; cbn; intros H; [constructor|]. inversion H; subst. constructor; [|auto].
-  intros Hin. apply H2. apply in_or_app. left; exact Hin. Qed.
-Lemma NoDup_app_r {A} (xs ys : list A) : NoDup (xs ++ ys) -> NoDup ys.
-Proof. induction xs as [|x xs IH]; cbn; intros H; [exact H|]. inversion H; subst. auto. Qed.
-Lemma NoDup_app_disj {A} (xs ys : list A) : NoDup (xs ++ ys) -> forall x, In x xs -> In x ys -> False.
-Proof. induction xs as [|x xs IH]; cbn; intros H y Hx Hy; [exact Hx|]. inversion H; subst.
-  destruct Hx as [->|Hx]; [apply H2; apply in_or_app; right; exact Hy|exact (IH H3 y Hx Hy)]. Qed.
+Lemma in_list_In x l : in_list x l = true <-> In x l.
+Proof.
+  unfold in_list. rewrite existsb_exists. split.
+  - intros (y & Hy & E). apply String.eqb_eq in E. subst y. exact Hy.
+  - intros H. exists x. split; [exact H|apply String.eqb_refl].
+Qed.
+Lemma in_list_false x l : in_list x l = false -> ~ In x l.
+Proof. intros H Hin. apply in_list_In in Hin. rewrite Hin in H. discriminate. Qed.
 
 Section Agreement.
 Variable F : facts.
 Hypothesis Hchained : chained F = true.
 Hypothesis Hifs : ifs_honoured F = true.
 Hypothesis Hkeep : tm_keeps_attrs F = true.
+Hypothesis Hscoped : genvars_scoped F = true.
 Variable R : record.
 Notation py := (py_eval_gen R whitelist_roots false true true).
 Notation itp := (interp F R).
 
+(* Python's scope [ns] and the interpreter's namespace [d]: every name Python sees has the same value in d, and a
+   field-type name Python resolves is not hidden in d *)
 Definition agree (ns d : names) : Prop :=
   (forall n v, lookup n ns = Some v -> lookup n d = Some v) /\
   (forall n, in_list n whitelist_roots = true -> lookup n ns = None -> lookup n d = None).
 Definition fresh (d : names) (xs : list string) : Prop :=
   forall x, In x xs -> lookup x d = None /\ in_list x whitelist_roots = false.
-Definition grows (d d' : names) (xs : list string) : Prop :=
-  forall n, lookup n d' <> None -> lookup n d <> None \/ In n xs.
+Definition names_fresh (ns : names) (xs : list string) : Prop :=
+  forall y, In y xs -> lookup y ns = None /\ in_list y whitelist_roots = false.
 Definition rel (bpos : bool) (v v' : value) : Prop := if bpos then truthy v' = truthy v else v' = v.
+(* d' is d with bindings of names in XS put in front *)
+Definition ext (XS : list string) (d d' : names) : Prop :=
+  exists pre, d' = pre ++ d /\ Forall (fun kv => In (fst kv) XS) pre.
 
 Lemma rel_eq bpos v : rel bpos v v.
 Proof. destruct bpos; reflexivity. Qed.
-
-Lemma grows_refl d xs : grows d d xs.
-Proof. intros n H. left; exact H. Qed.
-Lemma grows_trans d d1 d2 xs ys : grows d d1 xs -> grows d1 d2 ys -> grows d d2 (xs ++ ys).
-Proof. intros H1 H2 n H. destruct (H2 n H) as [H3|H3]; [destruct (H1 n H3) as [H4|H4]|].
-  - left; exact H4. - right; apply in_or_app; left; exact H4. - right; apply in_or_app; right; exact H3. Qed.
-Lemma grows_incl d d' xs ys : grows d d' xs -> incl xs ys -> grows d d' ys.
-Proof. intros H Hi n Hn. destruct (H n Hn) as [H1|H1]; [left; exact H1|right; exact (Hi _ H1)]. Qed.
 
 Lemma fresh_app_l d xs ys : fresh d (xs ++ ys) -> fresh d xs.
 Proof. intros H x Hx. apply H. apply in_or_app. left; exact Hx. Qed.
 Lemma fresh_app_r d xs ys : fresh d (xs ++ ys) -> fresh d ys.
 Proof. intros H x Hx. apply H. apply in_or_app. right; exact Hx. Qed.
-Lemma fresh_next d d1 xs ys : fresh d (xs ++ ys) -> NoDup (xs ++ ys) -> grows d d1 xs -> fresh d1 ys.
+Lemma fresh_incl d xs ys : fresh d ys -> incl xs ys -> fresh d xs.
+Proof. intros H Hi x Hx. exact (H x (Hi x Hx)). Qed.
+Lemma fresh_bind d G x v : fresh d G -> ~ In x G -> fresh (bind x v d) G.
 Proof.
-  intros Hf Hn Hg x Hx. destruct (Hf x (in_or_app _ _ _ (or_intror Hx))) as [H1 H2]. split; [|exact H2].
-  destruct (lookup x d1) as [w|] eqn:E; [|reflexivity]. exfalso.
-  assert (Hne : lookup x d1 <> None) by (rewrite E; discriminate).
-  destruct (Hg x Hne) as [H3|H3]; [exact (H3 H1)|exact (NoDup_app_disj _ _ Hn x H3 Hx)].
+  intros H Hx y Hy. destruct (H y Hy) as [H1 H2]. split; [|exact H2]. cbn.
+  destruct (String.eqb x y) eqn:E; [|exact H1]. apply String.eqb_eq in E. subst y. contradiction.
 Qed.
-Lemma fresh_nil d : fresh d [].
-Proof. intros x []. Qed.
+
+Lemma ext_refl XS d : ext XS d d.
+Proof. exists []. split; [reflexivity|constructor]. Qed.
+Lemma ext_bind XS d d' x v : In x XS -> ext XS d d' -> ext XS d (bind x v d').
+Proof. intros Hx (pre & -> & Hp). exists ((x, v) :: pre). split; [reflexivity|]. constructor; [exact Hx|exact Hp]. Qed.
+Lemma ext_trans XS d d1 d2 : ext XS d d1 -> ext XS d1 d2 -> ext XS d d2.
+Proof.
+  intros (p1 & -> & H1) (p2 & -> & H2). exists (p2 ++ p1). split; [rewrite app_assoc; reflexivity|].
+  apply Forall_app. split; assumption.
+Qed.
+Lemma ext_incl XS YS d d' : ext XS d d' -> incl XS YS -> ext YS d d'.
+Proof.
+  intros (p & -> & H) Hi. exists p. split; [reflexivity|]. eapply Forall_impl; [|exact H]. intros kv Hk. exact (Hi _ Hk).
+Qed.
+Lemma lookup_ext XS d d' n : ext XS d d' -> ~ In n XS -> lookup n d' = lookup n d.
+Proof.
+  intros (pre & -> & Hp) Hn. induction Hp as [|[k w] pre Hk _ IH]; [reflexivity|]. cbn.
+  destruct (String.eqb k n) eqn:E; [|exact IH]. apply String.eqb_eq in E. subst k. cbn in Hk. contradiction.
+Qed.
+Lemma agree_ext ns XS d d' : agree ns d -> names_fresh ns XS -> ext XS d d' -> agree ns d'.
+Proof.
+  intros [A1 A2] HN HE. split.
+  - intros n w H. destruct (in_dec string_dec n XS) as [Hin|Hin].
+    + rewrite (proj1 (HN n Hin)) in H. discriminate.
+    + rewrite (lookup_ext _ _ _ _ HE Hin). exact (A1 _ _ H).
+  - intros n Hr H. destruct (in_dec string_dec n XS) as [Hin|Hin].
+    + rewrite (proj2 (HN n Hin)) in Hr. discriminate.
+    + rewrite (lookup_ext _ _ _ _ HE Hin). exact (A2 _ Hr H).
+Qed.
+Lemma fresh_ext XS d d' G : fresh d G -> (forall x, In x XS -> ~ In x G) -> ext XS d d' -> fresh d' G.
+Proof.
+  intros H HD HE y Hy. destruct (H y Hy) as [H1 H2]. split; [|exact H2].
+  rewrite (lookup_ext _ _ _ y HE); [exact H1|]. intros Hin. exact (HD _ Hin Hy).
+Qed.
+Lemma lookup_none_keys x d : lookup x d = None -> forall kv, In kv d -> fst kv <> x.
+Proof.
+  induction d as [|[k w] d IH]; cbn; intros H kv Hin; [destruct Hin|].
+  destruct (String.eqb k x) eqn:E; [discriminate|]. destruct Hin as [<-|Hin]; [|exact (IH H kv Hin)].
+  cbn. intros ->. rewrite String.eqb_refl in E. discriminate.
+Qed.
+Lemma remove_ext XS d d' : (forall x, In x XS -> lookup x d = None) -> ext XS d d' -> remove_names XS d' = d.
+Proof.
+  intros HX (pre & -> & Hp). unfold remove_names. rewrite filter_app.
+  assert (E1 : filter (fun kv : string * value => negb (in_list (fst kv) XS)) pre = []).
+  { induction Hp as [|kv pre Hk _ IH]; [reflexivity|]. cbn. rewrite (proj2 (in_list_In _ _) Hk). exact IH. }
+  assert (E2 : filter (fun kv : string * value => negb (in_list (fst kv) XS)) d = d).
+  { assert (K : forall kv, In kv d -> in_list (fst kv) XS = false).
+    { intros kv Hin. destruct (in_list (fst kv) XS) eqn:E; [|reflexivity]. apply in_list_In in E.
+      exfalso. exact (lookup_none_keys _ _ (HX _ E) kv Hin eq_refl). }
+    clear HX. induction d as [|kv d IH]; [reflexivity|]. cbn. rewrite (K kv (or_introl eq_refl)). cbn.
+    f_equal. apply IH. intros kv' Hin. apply K. right; exact Hin. }
+  rewrite E1, E2. reflexivity.
+Qed.
 
 Definition Pe (e : expr) : Prop := forall bpos ns d v,
-  lang bpos e = true -> agree ns d -> fresh d (gvars e) -> NoDup (gvars e) ->
+  lang bpos e = true -> agree ns d -> fresh d (gvars e) -> scoped e = true ->
   py ns e = Val v ->
-  exists v' d', itp d e = (Val v', d') /\ rel bpos v v' /\ agree ns d' /\ grows d d' (gvars e).
+  exists v', itp d e = (Val v', d) /\ rel bpos v v'.
 
 Lemma seq_agree es : Forall Pe es -> forall ns d vs,
-  forallb (lang false) es = true -> agree ns d -> fresh d (flat_map gvars es) -> NoDup (flat_map gvars es) ->
-  p_seq py ns es = inl vs ->
-  exists d', i_seq itp es d = (inl vs, d') /\ agree ns d' /\ grows d d' (flat_map gvars es).
+  forallb (lang false) es = true -> agree ns d -> fresh d (flat_map gvars es) -> forallb scoped es = true ->
+  p_seq py ns es = inl vs -> i_seq itp es d = (inl vs, d).
 Proof.
-  induction 1 as [|e es He _ IH]; intros ns d vs HL HA HF HN H; cbn in *.
-  - injection H as <-. exists d. repeat split; [exact (proj1 HA)|exact (proj2 HA)|apply grows_refl].
-  - apply andb_prop in HL. destruct HL as [HL1 HL2].
+  induction 1 as [|e es He _ IH]; intros ns d vs HL HA HF HS H; cbn in *.
+  - injection H as <-. reflexivity.
+  - apply andb_prop in HL. destruct HL as [HL1 HL2]. apply andb_prop in HS. destruct HS as [HS1 HS2].
     destruct (py ns e) as [v|x] eqn:E; [|discriminate].
     destruct (p_seq py ns es) as [ws|x] eqn:E2; [|discriminate]. injection H as <-.
-    destruct (He false ns d v HL1 HA (fresh_app_l _ _ _ HF) (NoDup_app_l _ _ HN) E) as (v' & d1 & Ei & Hr & HA1 & HG1).
-    cbn in Hr. subst v'. rewrite Ei.
-    destruct (IH ns d1 ws HL2 HA1 (fresh_next _ _ _ _ HF HN HG1) (NoDup_app_r _ _ HN) E2) as (d2 & Ei2 & HA2 & HG2).
-    rewrite Ei2. exists d2. repeat split; [exact (proj1 HA2)|exact (proj2 HA2)|exact (grows_trans _ _ _ _ _ HG1 HG2)].
+    destruct (He false ns d v HL1 HA (fresh_app_l _ _ _ HF) HS1 E) as (v' & Ei & Hr). cbn in Hr. subst v'.
+    rewrite Ei, (IH ns d ws HL2 HA (fresh_app_r _ _ _ HF) HS2 E2). reflexivity.
 Qed.
 
 Lemma kws_agree kws : Forall (fun kw => Pe (snd kw)) kws -> forall ns d vs,
   forallb (fun kw => lang false (snd kw)) kws = true -> agree ns d ->
-  fresh d (flat_map (fun kw => gvars (snd kw)) kws) -> NoDup (flat_map (fun kw => gvars (snd kw)) kws) ->
-  p_kws py ns kws = inl vs ->
-  exists d', i_kws itp kws d = (inl vs, d') /\ agree ns d' /\ grows d d' (flat_map (fun kw => gvars (snd kw)) kws).
+  fresh d (flat_map (fun kw => gvars (snd kw)) kws) -> forallb (fun kw => scoped (snd kw)) kws = true ->
+  p_kws py ns kws = inl vs -> i_kws itp kws d = (inl vs, d).
 Proof.
-  induction 1 as [|[k e] kws He _ IH]; intros ns d vs HL HA HF HN H; cbn in *.
-  - injection H as <-. exists d. repeat split; [exact (proj1 HA)|exact (proj2 HA)|apply grows_refl].
-  - apply andb_prop in HL. destruct HL as [HL1 HL2].
+  induction 1 as [|[k e] kws He _ IH]; intros ns d vs HL HA HF HS H; cbn in *.
+  - injection H as <-. reflexivity.
+  - apply andb_prop in HL. destruct HL as [HL1 HL2]. apply andb_prop in HS. destruct HS as [HS1 HS2].
     destruct (py ns e) as [v|x] eqn:E; [|discriminate].
     destruct (p_kws py ns kws) as [ws|x] eqn:E2; [|discriminate]. injection H as <-.
-    destruct (He false ns d v HL1 HA (fresh_app_l _ _ _ HF) (NoDup_app_l _ _ HN) E) as (v' & d1 & Ei & Hr & HA1 & HG1).
-    cbn in Hr. subst v'. rewrite Ei.
-    destruct (IH ns d1 ws HL2 HA1 (fresh_next _ _ _ _ HF HN HG1) (NoDup_app_r _ _ HN) E2) as (d2 & Ei2 & HA2 & HG2).
-    rewrite Ei2. exists d2. repeat split; [exact (proj1 HA2)|exact (proj2 HA2)|exact (grows_trans _ _ _ _ _ HG1 HG2)].
+    destruct (He false ns d v HL1 HA (fresh_app_l _ _ _ HF) HS1 E) as (v' & Ei & Hr). cbn in Hr. subst v'.
+    rewrite Ei, (IH ns d ws HL2 HA (fresh_app_r _ _ _ HF) HS2 E2). reflexivity.
 Qed.
 
 Lemma bools_agree es : Forall Pe es -> forall ns d vs,
-  forallb (lang true) es = true -> agree ns d -> fresh d (flat_map gvars es) -> NoDup (flat_map gvars es) ->
-  p_seq py ns es = inl vs ->
-  exists d', i_bools itp es d = (inl (map truthy vs), d') /\ agree ns d' /\ grows d d' (flat_map gvars es).
+  forallb (lang true) es = true -> agree ns d -> fresh d (flat_map gvars es) -> forallb scoped es = true ->
+  p_seq py ns es = inl vs -> i_bools itp es d = (inl (map truthy vs), d).
 Proof.
-  induction 1 as [|e es He _ IH]; intros ns d vs HL HA HF HN H; cbn in *.
-  - injection H as <-. exists d. repeat split; [exact (proj1 HA)|exact (proj2 HA)|apply grows_refl].
-  - apply andb_prop in HL. destruct HL as [HL1 HL2].
+  induction 1 as [|e es He _ IH]; intros ns d vs HL HA HF HS H; cbn in *.
+  - injection H as <-. reflexivity.
+  - apply andb_prop in HL. destruct HL as [HL1 HL2]. apply andb_prop in HS. destruct HS as [HS1 HS2].
     destruct (py ns e) as [v|x] eqn:E; [|discriminate].
     destruct (p_seq py ns es) as [ws|x] eqn:E2; [|discriminate]. injection H as <-.
-    destruct (He true ns d v HL1 HA (fresh_app_l _ _ _ HF) (NoDup_app_l _ _ HN) E) as (v' & d1 & Ei & Hr & HA1 & HG1).
-    cbn in Hr. rewrite Ei.
-    destruct (IH ns d1 ws HL2 HA1 (fresh_next _ _ _ _ HF HN HG1) (NoDup_app_r _ _ HN) E2) as (d2 & Ei2 & HA2 & HG2).
-    rewrite Ei2. cbn [map]. rewrite Hr. exists d2.
-    repeat split; [exact (proj1 HA2)|exact (proj2 HA2)|exact (grows_trans _ _ _ _ _ HG1 HG2)].
+    destruct (He true ns d v HL1 HA (fresh_app_l _ _ _ HF) HS1 E) as (v' & Ei & Hr). cbn in Hr.
+    rewrite Ei, (IH ns d ws HL2 HA (fresh_app_r _ _ _ HF) HS2 E2). cbn [map]. rewrite Hr. reflexivity.
 Qed.
+
 
 (* ---- primitives: where Python gives a value the interpreter's variant gives the same ---- *)
 Lemma table_binop_ok op : lang_binop op = true -> table_op2 (binop_kind op) = Some (Some (binop_meaning op)).
@@ -372,28 +413,13 @@ Proof.
   destruct (in_list path whitelist); [reflexivity|discriminate].
 Qed.
 
-Lemma no_gvars_nil e : no_gvars e = true -> gvars e = [].
-Proof. unfold no_gvars. destruct (gvars e); [reflexivity|discriminate]. Qed.
 
 Lemma agree_bind ns d x v : agree ns d -> agree (bind x v ns) (bind x v d).
 Proof.
   intros [A1 A2]. split; intros n; cbn; destruct (String.eqb x n); auto.
 Qed.
-Lemma agree_unbind ns d x v : lookup x ns = None -> in_list x whitelist_roots = false ->
-  agree (bind x v ns) d -> agree ns d.
-Proof.
-  intros Hx Hr [A1 A2]. split.
-  - intros n w H. apply A1. cbn. destruct (String.eqb x n) eqn:E; [|exact H].
-    apply String.eqb_eq in E. subst n. rewrite Hx in H. discriminate.
-  - intros n Hn H. apply A2; [exact Hn|]. cbn. destruct (String.eqb x n) eqn:E; [|exact H].
-    apply String.eqb_eq in E. subst n. rewrite Hr in Hn. discriminate.
-Qed.
 Lemma agree_none ns d x : agree ns d -> lookup x d = None -> lookup x ns = None.
 Proof. intros [A1 _] H. destruct (lookup x ns) as [w|] eqn:E; [|reflexivity]. rewrite (A1 _ _ E) in H. discriminate. Qed.
-
-Lemma grows_bind d x v : grows d (bind x v d) [x].
-Proof. intros n. cbn. destruct (String.eqb x n) eqn:E; [|intros H; left; exact H].
-  apply String.eqb_eq in E. subst n. intros _. right. left. reflexivity. Qed.
 
 Lemma py_not_missing ns e v : py ns e = Val v -> is_missing v = false.
 Proof. intros H. destruct e; cbn [py_eval_gen] in H; apply chk_val in H; destruct H as [_ H]; exact (H eq_refl). Qed.
@@ -401,152 +427,114 @@ Proof. intros H. destruct e; cbn [py_eval_gen] in H; apply chk_val in H; destruc
 (* ---- the comparison chain ---- *)
 Lemma chain_agree rest : Forall (fun oc => Pe (snd oc)) rest -> forall ns d a last v,
   forallb (fun oc => lang false (snd oc)) rest = true -> agree ns d ->
-  fresh d (flat_map (fun oc => gvars (snd oc)) rest) -> NoDup (flat_map (fun oc => gvars (snd oc)) rest) ->
+  fresh d (flat_map (fun oc => gvars (snd oc)) rest) -> forallb (fun oc => scoped (snd oc)) rest = true ->
   is_missing a = false ->
   p_chain py (link_py R true true) ns rest a last = Val v ->
-  exists d', i_chain F R itp rest a last d = (Val v, d') /\ agree ns d' /\
-             grows d d' (flat_map (fun oc => gvars (snd oc)) rest).
+  i_chain F R itp rest a last d = (Val v, d).
 Proof.
-  induction 1 as [|[op c] rest He _ IH]; intros ns d a last v HL HA HF HN Ha H; cbn in *.
-  - exists d. split; [rewrite H; reflexivity|]. split; [exact HA|apply grows_refl].
-  - apply andb_prop in HL. destruct HL as [HL1 HL2].
+  induction 1 as [|[op c] rest He _ IH]; intros ns d a last v HL HA HF HS Ha H; cbn in *.
+  - rewrite H. reflexivity.
+  - apply andb_prop in HL. destruct HL as [HL1 HL2]. apply andb_prop in HS. destruct HS as [HS1 HS2].
     destruct (py ns c) as [rv|x] eqn:E; [|discriminate].
-    destruct (He false ns d rv HL1 HA (fresh_app_l _ _ _ HF) (NoDup_app_l _ _ HN) E) as (v' & d1 & Ei & Hr & HA1 & HG1).
-    cbn in Hr. subst v'. rewrite Ei.
+    destruct (He false ns d rv HL1 HA (fresh_app_l _ _ _ HF) HS1 E) as (v' & Ei & Hr). cbn in Hr. subst v'. rewrite Ei.
     assert (Hrv : is_missing rv = false) by exact (py_not_missing _ _ _ E).
     destruct (link_py R true true op a rv) as [res|x] eqn:EL; [|discriminate].
     rewrite (link_ok _ _ _ _ Ha Hrv EL).
-    destruct (truthy res).
-    + destruct (IH ns d1 rv res v HL2 HA1 (fresh_next _ _ _ _ HF HN HG1) (NoDup_app_r _ _ HN) Hrv H) as (d2 & Ei2 & HA2 & HG2).
-      exists d2. split; [exact Ei2|]. split; [exact HA2|exact (grows_trans _ _ _ _ _ HG1 HG2)].
-    + exists d1. split; [rewrite H; reflexivity|]. split; [exact HA1|].
-      apply (grows_incl _ _ _ _ HG1). intros y Hy. apply in_or_app. left; exact Hy.
+    destruct (truthy res); [exact (IH ns d rv res v HL2 HA (fresh_app_r _ _ _ HF) HS2 Hrv H)|rewrite H; reflexivity].
 Qed.
 
 (* ---- generator expressions ---- *)
-Definition cond_ok (c : expr) : bool := lang true c && no_gvars c.
-Definition body_ok (g : comp) : bool :=
-  match g with Comp _ it' cs' => lang false it' && no_gvars it' && forallb cond_ok cs' end.
-
 Lemma ifs_agree cs : Forall Pe cs -> forall ns d b,
-  forallb cond_ok cs = true -> agree ns d -> p_ifs py ns cs = inl b ->
-  exists d', i_ifs itp cs d = (inl b, d') /\ agree ns d' /\ grows d d' [].
+  forallb (lang true) cs = true -> agree ns d -> fresh d (flat_map gvars cs) -> forallb scoped cs = true ->
+  p_ifs py ns cs = inl b -> i_ifs itp cs d = (inl b, d).
 Proof.
-  induction 1 as [|c cs He _ IH]; intros ns d b HL HA H; cbn in *.
-  - injection H as <-. exists d. split; [reflexivity|]. split; [exact HA|apply grows_refl].
-  - apply andb_prop in HL. destruct HL as [HL1 HL2]. unfold cond_ok in HL1. apply andb_prop in HL1.
-    destruct HL1 as [HLc HGc]. apply no_gvars_nil in HGc.
+  induction 1 as [|c cs He _ IH]; intros ns d b HL HA HF HS H; cbn in *.
+  - injection H as <-. reflexivity.
+  - apply andb_prop in HL. destruct HL as [HL1 HL2]. apply andb_prop in HS. destruct HS as [HS1 HS2].
     destruct (py ns c) as [v|x] eqn:E; [|discriminate].
-    assert (HFc : fresh d (gvars c)) by (rewrite HGc; apply fresh_nil).
-    assert (HNc : NoDup (gvars c)) by (rewrite HGc; constructor).
-    destruct (He true ns d v HLc HA HFc HNc E) as (v' & d1 & Ei & Hr & HA1 & HG1).
-    cbn in Hr. rewrite HGc in HG1. rewrite Ei, Hr.
-    destruct (truthy v).
-    + destruct (IH ns d1 b HL2 HA1 H) as (d2 & Ei2 & HA2 & HG2).
-      exists d2. split; [exact Ei2|]. split; [exact HA2|exact (grows_trans _ _ _ _ _ HG1 HG2)].
-    + injection H as <-. exists d1. split; [reflexivity|]. split; [exact HA1|exact HG1].
+    destruct (He true ns d v HL1 HA (fresh_app_l _ _ _ HF) HS1 E) as (v' & Ei & Hr). cbn in Hr. rewrite Ei, Hr.
+    destruct (truthy v); [exact (IH ns d b HL2 HA (fresh_app_r _ _ _ HF) HS2 H)|injection H as <-; reflexivity].
 Qed.
-
-Definition names_fresh (ns : names) (xs : list string) : Prop :=
-  forall y, In y xs -> lookup y ns = None /\ in_list y whitelist_roots = false.
-
-Definition Qg (all_ : bool) (elt : expr) (gs : list comp) : Prop := forall ns d s,
-  agree ns d -> names_fresh ns (map comp_target gs) -> NoDup (map comp_target gs) ->
-  p_gens R py all_ elt gs ns = s -> not_fail s ->
-  exists d', i_gens F R itp all_ elt gs d = (s, d') /\ agree ns d' /\ grows d d' (map comp_target gs).
 
 Lemma iter_interp_ok iv : is_missing iv = false -> iter_values_interp R iv = iter_values R iv.
 Proof. destruct iv; try reflexivity. discriminate. Qed.
 
-Lemma gens_step all_ elt x it cs gs' :
-  Pe it -> Forall Pe cs -> lang false it = true -> forallb cond_ok cs = true -> Qg all_ elt gs' ->
-  forall ns d s, agree ns d -> fresh d (gvars it) -> NoDup (gvars it) ->
-    names_fresh ns (x :: map comp_target gs') -> NoDup (x :: map comp_target gs') ->
-    p_gens R py all_ elt (Comp x it cs :: gs') ns = s -> not_fail s ->
-    exists d', i_gens F R itp all_ elt (Comp x it cs :: gs') d = (s, d') /\ agree ns d' /\
-               grows d d' (gvars it ++ x :: map comp_target gs').
-Proof.
-  intros Hit Hcs HLit HLcs HQ ns d s HA HF HN HNF HND H NF.
-  cbn [p_gens i_gens] in *. rewrite Hifs.
-  destruct (py ns it) as [iv|e] eqn:E; [|subst s; destruct NF].
-  destruct (Hit false ns d iv HLit HA HF HN E) as (iv' & d1 & Ei & Hr & HA1 & HG1). cbn in Hr. subst iv'.
-  rewrite Ei. rewrite (iter_interp_ok iv (py_not_missing _ _ _ E)).
-  destruct (iter_values R iv) as [vals|e]; [|subst s; destruct NF].
-  destruct (HNF x (or_introl eq_refl)) as [Hx Hxr].
-  assert (HNF' : forall v, names_fresh (bind x v ns) (map comp_target gs')).
-  { intros v y Hy. destruct (HNF y (or_intror Hy)) as [H1 H2]. split; [|exact H2]. cbn.
-    destruct (String.eqb x y) eqn:Exy; [|exact H1]. apply String.eqb_eq in Exy. subst y.
-    inversion HND; subst. contradiction. }
-  assert (HND' : NoDup (map comp_target gs')) by (inversion HND; assumption).
-  (* the loop over the values, from any state D reached so far *)
-  match goal with
-  | |- exists d', ?L vals d1 = _ /\ _ /\ _ =>
-      cut (forall D, agree ns D -> grows d1 D (x :: map comp_target gs') ->
-             exists d', L vals D = (s, d') /\ agree ns d' /\ grows d1 d' (x :: map comp_target gs'))
+Section Gens.
+Variable all_ : bool.
+Variable elt : expr.
+Variable G : list string.        (* the generator variables bound anywhere inside this generator expression *)
+Hypothesis Helt : Pe elt.
+Hypothesis HLelt : lang true elt = true.
+Hypothesis HSelt : scoped elt = true.
+Hypothesis HGelt : incl (gvars elt) G.
+
+Definition comp_ok (g : comp) : Prop :=
+  match g with
+  | Comp _ it cs => lang false it = true /\ forallb (lang true) cs = true /\ scoped it = true /\
+                    forallb scoped cs = true /\ incl (gvars it) G /\ incl (flat_map gvars cs) G
   end.
-  { intros C. destruct (C d1 HA1 (grows_refl _ _)) as (d' & E1 & A & G). exists d'.
-    split; [exact E1|]. split; [exact A|exact (grows_trans _ _ _ _ _ HG1 G)]. }
-  revert s H NF. induction vals as [|v vs IHv]; intros s H NF D HAD HGD.
-  - subst s. exists D. split; [reflexivity|]. split; [exact HAD|exact HGD].
-  - destruct (p_ifs py (bind x v ns) cs) as [b|e] eqn:EI; [|subst s; destruct NF].
-    destruct (ifs_agree cs Hcs _ (bind x v D) b HLcs (agree_bind _ _ x v HAD) EI) as (D2 & Ei2 & HA2 & HG2).
-    rewrite Ei2.
-    assert (HGD2 : grows d1 D2 (x :: map comp_target gs')).
-    { intros n Hn. destruct (HG2 n Hn) as [Hn1|[]]. revert Hn1. cbn.
-      destruct (String.eqb x n) eqn:Exn.
-      - intros _. right. left. apply String.eqb_eq in Exn. exact Exn.
-      - intros Hn1. exact (HGD n Hn1). }
-    destruct b.
-    + destruct (p_gens R py all_ elt gs' (bind x v ns)) as [| |e] eqn:EG.
-      * destruct (HQ _ D2 _ HA2 (HNF' v) HND' EG I) as (D3 & Ei3 & HA3 & HG3). rewrite Ei3.
-        subst s. exists D3. split; [reflexivity|]. split; [exact (agree_unbind _ _ x v Hx Hxr HA3)|].
-        intros n Hn. destruct (HG3 n Hn) as [Hn1|Hn1]; [exact (HGD2 n Hn1)|right; right; exact Hn1].
-      * destruct (HQ _ D2 _ HA2 (HNF' v) HND' EG I) as (D3 & Ei3 & HA3 & HG3). rewrite Ei3.
-        apply (IHv s H NF D3 (agree_unbind _ _ x v Hx Hxr HA3)).
-        intros n Hn. destruct (HG3 n Hn) as [Hn1|Hn1]; [exact (HGD2 n Hn1)|right; right; exact Hn1].
-      * subst s. destruct NF.
-    + exact (IHv s H NF D2 (agree_unbind _ _ x v Hx Hxr HA2) HGD2).
-Qed.
 
-Lemma gens_tail all_ elt : Pe elt -> lang true elt = true -> no_gvars elt = true ->
-  forall gs, Forall (Pcomp Pe) gs -> forallb body_ok gs = true -> Qg all_ elt gs.
+Lemma gens_agree gs : Forall (Pcomp Pe) gs -> Forall comp_ok gs ->
+  forall ns D s, agree ns D -> fresh D G -> names_fresh ns (map comp_target gs) -> NoDup (map comp_target gs) ->
+    (forall x, In x (map comp_target gs) -> ~ In x G) ->
+    p_gens R py all_ elt gs ns = s -> not_fail s ->
+    exists D', i_gens F R itp all_ elt gs D = (s, D') /\ ext (map comp_target gs) D D'.
 Proof.
-  intros Helt HLe HGe. apply no_gvars_nil in HGe.
-  induction 1 as [|[x it cs] gs [Hit Hcs] _ IH]; intros HB.
-  - intros ns d s HA _ _ H NF. cbn in *.
-    destruct (py ns elt) as [v|e] eqn:E; [|subst s; destruct NF].
-    assert (HFe : fresh d (gvars elt)) by (rewrite HGe; apply fresh_nil).
-    assert (HNe : NoDup (gvars elt)) by (rewrite HGe; constructor).
-    destruct (Helt true ns d v HLe HA HFe HNe E) as (v' & d1 & Ei & Hr & HA1 & HG1). cbn in Hr.
-    rewrite HGe in HG1. rewrite Ei. exists d1. split; [|split; [exact HA1|exact HG1]].
-    subst s. unfold decisive. rewrite Hr. reflexivity.
-  - cbn [forallb] in HB. apply andb_prop in HB. destruct HB as [HB1 HB2]. cbn [body_ok] in HB1.
-    apply andb_prop in HB1. destruct HB1 as [HB1 HBc]. apply andb_prop in HB1. destruct HB1 as [HBl HBg].
-    apply no_gvars_nil in HBg.
-    intros ns d s HA HNF HND H NF.
-    assert (HFi : fresh d (gvars it)) by (rewrite HBg; apply fresh_nil).
-    assert (HNi : NoDup (gvars it)) by (rewrite HBg; constructor).
-    destruct (gens_step all_ elt x it cs gs Hit Hcs HBl HBc (IH HB2) ns d s HA HFi HNi HNF HND H NF) as (d' & E1 & A & G).
-    exists d'. split; [exact E1|]. split; [exact A|]. rewrite HBg in G. exact G.
+  induction 1 as [|[x it cs] gs' [Hit Hcs] _ IH]; intros HOK ns D s HA HF HNF HND HDJ H NF.
+  - cbn in *. destruct (py ns elt) as [v|e] eqn:E; [|subst s; destruct NF].
+    destruct (Helt true ns D v HLelt HA (fresh_incl _ _ _ HF HGelt) HSelt E) as (v' & Ei & Hr). cbn in Hr.
+    rewrite Ei. exists D. split; [|apply ext_refl]. subst s. unfold decisive. rewrite Hr. reflexivity.
+  - pose proof (Forall_inv HOK) as HO. pose proof (Forall_inv_tail HOK) as HOK'. cbn [comp_ok] in HO.
+    destruct HO as (HLit & HLcs & HSit & HScs & HGit & HGcs).
+    cbn [p_gens i_gens map comp_target] in *. rewrite Hifs.
+    destruct (py ns it) as [iv|e] eqn:E; [|subst s; destruct NF].
+    destruct (Hit false ns D iv HLit HA (fresh_incl _ _ _ HF HGit) HSit E) as (iv' & Ei & Hr). cbn in Hr. subst iv'.
+    rewrite Ei. rewrite (iter_interp_ok iv (py_not_missing _ _ _ E)).
+    destruct (iter_values R iv) as [vals|e]; [|subst s; destruct NF].
+    destruct (HNF x (or_introl eq_refl)) as [Hx Hxr].
+    assert (HNF' : forall v, names_fresh (bind x v ns) (map comp_target gs')).
+    { intros v y Hy. destruct (HNF y (or_intror Hy)) as [H1 H2]. split; [|exact H2]. cbn.
+      destruct (String.eqb x y) eqn:Exy; [|exact H1]. apply String.eqb_eq in Exy. subst y.
+      inversion HND; subst. contradiction. }
+    assert (HND' : NoDup (map comp_target gs')) by (inversion HND; assumption).
+    assert (HDJ' : forall y, In y (map comp_target gs') -> ~ In y G) by (intros y Hy; apply HDJ; right; exact Hy).
+    assert (HxG : ~ In x G) by (apply HDJ; left; reflexivity).
+    set (XS := x :: map comp_target gs') in *.
+    (* the loop over the values, from any state Dk reached so far *)
+    match goal with
+    | |- exists D', ?L vals D = _ /\ _ =>
+        cut (forall Dk, ext XS D Dk -> exists D', L vals Dk = (s, D') /\ ext XS D D')
+    end.
+    { intros C. exact (C D (ext_refl _ _)). }
+    revert s H NF. induction vals as [|v vs IHv]; intros s H NF Dk HE.
+    + subst s. exists Dk. split; [reflexivity|exact HE].
+    + pose proof (agree_ext ns XS D Dk HA HNF HE) as HAk.
+      pose proof (fresh_ext XS D Dk G HF HDJ HE) as HFk.
+      pose proof (agree_bind _ _ x v HAk) as HA1.
+      pose proof (fresh_bind _ _ x v HFk HxG) as HF1.
+      assert (HE1 : ext XS D (bind x v Dk)) by (apply ext_bind; [left; reflexivity|exact HE]).
+      destruct (p_ifs py (bind x v ns) cs) as [b|e] eqn:EI; [|subst s; destruct NF].
+      rewrite (ifs_agree cs Hcs _ (bind x v Dk) b HLcs HA1 (fresh_incl _ _ _ HF1 HGcs) HScs EI).
+      destruct b.
+      * destruct (p_gens R py all_ elt gs' (bind x v ns)) as [| |e] eqn:EG.
+        -- destruct (IH HOK' _ (bind x v Dk) _ HA1 HF1 (HNF' v) HND' HDJ' EG I) as (D3 & Ei3 & HE3). rewrite Ei3.
+           subst s. exists D3. split; [reflexivity|].
+           apply (ext_trans _ _ _ _ HE1). apply (ext_incl _ _ _ _ HE3). intros y Hy. right; exact Hy.
+        -- destruct (IH HOK' _ (bind x v Dk) _ HA1 HF1 (HNF' v) HND' HDJ' EG I) as (D3 & Ei3 & HE3). rewrite Ei3.
+           apply (IHv s H NF D3).
+           apply (ext_trans _ _ _ _ HE1). apply (ext_incl _ _ _ _ HE3). intros y Hy. right; exact Hy.
+        -- subst s. destruct NF.
+      * exact (IHv s H NF _ HE1).
 Qed.
+End Gens.
 
-Lemma conds_gvars cs : forallb cond_ok cs = true -> flat_map gvars cs = [].
-Proof. induction cs as [|c cs IH]; cbn; [reflexivity|]. intros H. apply andb_prop in H. destruct H as [H1 H2].
-  unfold cond_ok in H1. apply andb_prop in H1. destruct H1 as [_ H1]. rewrite (no_gvars_nil _ H1), (IH H2). reflexivity. Qed.
-
-Lemma bodies_gvars gs : forallb body_ok gs = true ->
-  flat_map (fun g => match g with Comp x it cs => x :: gvars it ++ flat_map gvars cs end) gs = map comp_target gs.
+Lemma gens_gvars_in gens y :
+  In y (map comp_target gens) \/ In y (flat_map comp_inner gens) ->
+  In y (flat_map (fun g => match g with Comp x it cs => x :: gvars it ++ flat_map gvars cs end) gens).
 Proof.
-  induction gs as [|[x it cs] gs IH]; cbn [flat_map map forallb]; [reflexivity|]. intros H.
-  apply andb_prop in H. destruct H as [H1 H2]. cbn [body_ok] in H1. apply andb_prop in H1. destruct H1 as [H1 Hc].
-  apply andb_prop in H1. destruct H1 as [_ Hg]. rewrite (no_gvars_nil _ Hg), (conds_gvars _ Hc), (IH H2). reflexivity.
-Qed.
-
-Lemma quant_gvars a elt x it cs gs' : no_gvars elt = true -> forallb cond_ok cs = true -> forallb body_ok gs' = true ->
-  gvars (EQuant a elt (Comp x it cs :: gs')) = x :: gvars it ++ map comp_target gs'.
-Proof.
-  intros He Hc Hb. cbn [gvars flat_map]. rewrite (no_gvars_nil _ He), (conds_gvars _ Hc), (bodies_gvars _ Hb).
-  rewrite !app_nil_r. reflexivity.
+  induction gens as [|[x it cs] gs IH]; cbn [map flat_map comp_target comp_inner].
+  - intros [[]|[]].
+  - intros H. cbn. rewrite !in_app_iff in *. cbn in H. tauto.
 Qed.
 
 Lemma targets_unbound d gs : fresh d (map comp_target gs) -> existsb (fun g => in_dom (comp_target g) d) gs = false.
@@ -554,6 +542,12 @@ Proof.
   induction gs as [|g gs IH]; cbn; [reflexivity|]. intros H.
   unfold in_dom at 1. rewrite (proj1 (H (comp_target g) (or_introl eq_refl))). cbn.
   apply IH. intros y Hy. apply H. right; exact Hy.
+Qed.
+
+Lemma nodupb_NoDup l : nodupb l = true -> NoDup l.
+Proof.
+  induction l as [|x l IH]; cbn; intros H; [constructor|]. apply andb_prop in H. destruct H as [H1 H2].
+  constructor; [|exact (IH H2)]. apply negb_true_iff in H1. exact (in_list_false _ _ H1).
 Qed.
 
 Lemma interp_call_unfold d f args kws : callee_shape f = true ->
@@ -577,143 +571,134 @@ Lemma interp_call_unfold d f args kws : callee_shape f = true ->
   end.
 Proof. destruct f; try discriminate; intros _; reflexivity. Qed.
 
-Ltac done_with v d := exists v, d; split; [reflexivity|]; split; [apply rel_eq|]; split; [assumption|].
 
 Theorem interp_agrees : forall e, Pe e.
 Proof.
   induction e as [c|n|e a IHe|es IHes|es IHes|op es IHes|op e IHe|op l r IHl IHr|l rest IHl IHrest
                   |f args kws IHf IHargs IHkws|a elt gens IHelt IHgens|k] using expr_ind';
-    intros bpos ns d v HL HA HF HN H; cbn [py_eval_gen] in H; apply chk_val in H; destruct H as [H _];
-    cbn [lang gvars] in *.
-  - (* constant *) injection H as <-. done_with c d. apply grows_refl.
-  - (* name *) exists v, d. split; [cbn [interp]; rewrite (name_ok _ _ _ _ HA H); reflexivity|].
-    split; [apply rel_eq|]. split; [exact HA|apply grows_refl].
+    intros bpos ns d v HL HA HF HS H; cbn [py_eval_gen] in H; apply chk_val in H; destruct H as [H _];
+    cbn [lang gvars scoped] in *.
+  - (* constant *) injection H as <-. exists c. split; [reflexivity|apply rel_eq].
+  - (* name *) exists v. split; [cbn [interp]; rewrite (name_ok _ _ _ _ HA H); reflexivity|apply rel_eq].
   - (* attribute *)
     destruct (py ns e) as [ov|x] eqn:E; [|discriminate].
-    destruct (IHe false ns d ov HL HA HF HN E) as (ov' & d1 & Ei & Hr & HA1 & HG1). cbn in Hr. subst ov'.
+    destruct (IHe false ns d ov HL HA HF HS E) as (ov' & Ei & Hr). cbn in Hr. subst ov'.
     destruct (getattr_ok _ _ _ H) as [Hd Hg].
-    exists v, d1. split; [cbn [interp]; rewrite Hd, Ei, Hg; reflexivity|].
-    split; [apply rel_eq|]. split; [exact HA1|exact HG1].
+    exists v. split; [cbn [interp]; rewrite Hd, Ei, Hg; reflexivity|apply rel_eq].
   - (* list *)
     destruct (p_seq py ns es) as [vs|x] eqn:E; [|discriminate]. injection H as <-.
-    destruct (seq_agree es IHes ns d vs HL HA HF HN E) as (d1 & Ei & HA1 & HG1).
-    exists (VList vs), d1. split; [cbn [interp]; rewrite Ei; reflexivity|].
-    split; [apply rel_eq|]. split; [exact HA1|exact HG1].
+    exists (VList vs). split; [cbn [interp]; rewrite (seq_agree es IHes ns d vs HL HA HF HS E); reflexivity|apply rel_eq].
   - (* tuple *)
     destruct (p_seq py ns es) as [vs|x] eqn:E; [|discriminate]. injection H as <-.
-    destruct (seq_agree es IHes ns d vs HL HA HF HN E) as (d1 & Ei & HA1 & HG1).
-    exists (VTuple vs), d1. split; [cbn [interp]; rewrite Ei; reflexivity|].
-    split; [apply rel_eq|]. split; [exact HA1|exact HG1].
+    exists (VTuple vs). split; [cbn [interp]; rewrite (seq_agree es IHes ns d vs HL HA HF HS E); reflexivity|apply rel_eq].
   - (* and / or *)
     apply andb_prop in HL. destruct HL as [Hb HL]. subst bpos.
     destruct (p_seq py ns es) as [vs|x] eqn:E; [|discriminate].
-    destruct (bools_agree es IHes ns d vs HL HA HF HN E) as (d1 & Ei & HA1 & HG1).
+    pose proof (bools_agree es IHes ns d vs HL HA HF HS E) as Ei.
     destruct vs as [|w ws]; [discriminate H|].
     pose proof (select_truthy _ _ _ H) as HT.
     destruct ws as [|w2 ws].
-    + exists (VBool (truthy w)), d1. split; [cbn [interp]; rewrite Ei; reflexivity|].
-      split; [|split; [exact HA1|exact HG1]]. cbn in H. injection H as <-. reflexivity.
-    + exists (VBool (bool_fold op (map truthy (w :: w2 :: ws)))), d1.
-      split; [|split; [symmetry; exact HT|split; [exact HA1|exact HG1]]].
+    + exists (VBool (truthy w)). split; [cbn [interp]; rewrite Ei; reflexivity|].
+      cbn in H. injection H as <-. reflexivity.
+    + exists (VBool (bool_fold op (map truthy (w :: w2 :: ws)))). split; [|symmetry; exact HT].
       cbn [interp]. rewrite Ei. cbn [map]. rewrite table_boolop_ok.
       destruct op; [rewrite fold_and|rewrite fold_or]; reflexivity.
   - (* not *)
     destruct op; try discriminate HL. cbn in H.
     destruct (py ns e) as [w|x] eqn:E; [|discriminate].
-    destruct (IHe true ns d w HL HA HF HN E) as (w' & d1 & Ei & Hr & HA1 & HG1). cbn in Hr.
-    exists v, d1. split; [|split; [apply rel_eq|split; [exact HA1|exact HG1]]].
+    destruct (IHe true ns d w HL HA HF HS E) as (w' & Ei & Hr). cbn in Hr.
+    exists v. split; [|apply rel_eq].
     cbn [interp]. rewrite table_not_ok, Ei. unfold py_not in *. rewrite Hr. rewrite H. reflexivity.
   - (* binary operator *)
     apply andb_prop in HL. destruct HL as [HL HLr]. apply andb_prop in HL. destruct HL as [HLo HLl].
+    apply andb_prop in HS. destruct HS as [HSl HSr].
     rewrite HLo in H. cbn in H.
     destruct (py ns l) as [x|x] eqn:E1; [|discriminate].
     destruct (py ns r) as [y|y] eqn:E2; [|discriminate].
-    destruct (IHl false ns d x HLl HA (fresh_app_l _ _ _ HF) (NoDup_app_l _ _ HN) E1) as (x' & d1 & Ei1 & Hr1 & HA1 & HG1).
-    cbn in Hr1. subst x'.
-    destruct (IHr false ns d1 y HLr HA1 (fresh_next _ _ _ _ HF HN HG1) (NoDup_app_r _ _ HN) E2) as (y' & d2 & Ei2 & Hr2 & HA2 & HG2).
-    cbn in Hr2. subst y'.
-    exists v, d2. split; [|split; [apply rel_eq|split; [exact HA2|exact (grows_trans _ _ _ _ _ HG1 HG2)]]].
-    cbn [interp]. rewrite Ei1, Ei2, (py_not_missing _ _ _ E1), (py_not_missing _ _ _ E2). cbn [orb].
-    rewrite (table_binop_ok _ HLo), H. reflexivity.
+    destruct (IHl false ns d x HLl HA (fresh_app_l _ _ _ HF) HSl E1) as (x' & Ei1 & Hr1). cbn in Hr1. subst x'.
+    destruct (IHr false ns d y HLr HA (fresh_app_r _ _ _ HF) HSr E2) as (y' & Ei2 & Hr2). cbn in Hr2. subst y'.
+    exists v. split; [|apply rel_eq].
+    cbn [interp]. rewrite (table_binop_ok _ HLo). rewrite andb_false_r.
+    rewrite Ei1, Ei2, (py_not_missing _ _ _ E1), (py_not_missing _ _ _ E2). cbn [orb]. rewrite H. reflexivity.
   - (* comparison *)
-    apply andb_prop in HL. destruct HL as [HLl HLr].
+    apply andb_prop in HL. destruct HL as [HLl HLr]. apply andb_prop in HS. destruct HS as [HSl HSr].
     destruct (py ns l) as [x|x] eqn:E1; [|discriminate].
-    destruct (IHl false ns d x HLl HA (fresh_app_l _ _ _ HF) (NoDup_app_l _ _ HN) E1) as (x' & d1 & Ei1 & Hr1 & HA1 & HG1).
-    cbn in Hr1. subst x'.
-    destruct (chain_agree rest IHrest ns d1 x (VBool true) v HLr HA1 (fresh_next _ _ _ _ HF HN HG1) (NoDup_app_r _ _ HN)
-                (py_not_missing _ _ _ E1) H) as (d2 & Ei2 & HA2 & HG2).
-    exists v, d2. split; [|split; [apply rel_eq|split; [exact HA2|exact (grows_trans _ _ _ _ _ HG1 HG2)]]].
-    cbn [interp]. rewrite Ei1, Hchained. exact Ei2.
+    destruct (IHl false ns d x HLl HA (fresh_app_l _ _ _ HF) HSl E1) as (x' & Ei1 & Hr1). cbn in Hr1. subst x'.
+    exists v. split; [|apply rel_eq].
+    cbn [interp]. rewrite Ei1, Hchained.
+    exact (chain_agree rest IHrest ns d x (VBool true) v HLr HA (fresh_app_r _ _ _ HF) HSr (py_not_missing _ _ _ E1) H).
   - (* call *)
     apply andb_prop in HL. destruct HL as [HL HLk]. apply andb_prop in HL. destruct HL as [HL HLa].
     apply andb_prop in HL. destruct HL as [HLs HLf].
+    apply andb_prop in HS. destruct HS as [HS HSk]. apply andb_prop in HS. destruct HS as [HSf HSa].
     destruct (py ns f) as [fv|x] eqn:E1; [|discriminate].
     destruct (p_seq py ns args) as [vs|x] eqn:E2; [|discriminate].
     destruct (p_kws py ns kws) as [kvs|x] eqn:E3; [|discriminate].
-    assert (HN2 : NoDup (flat_map gvars args ++ flat_map (fun kw => gvars (snd kw)) kws)) by exact (NoDup_app_r _ _ HN).
-    destruct (IHf false ns d fv HLf HA (fresh_app_l _ _ _ HF) (NoDup_app_l _ _ HN) E1) as (fv' & d1 & Ei1 & Hr1 & HA1 & HG1).
-    cbn in Hr1. subst fv'.
-    pose proof (fresh_next _ _ _ _ HF HN HG1) as HF2.
-    destruct (seq_agree args IHargs ns d1 vs HLa HA1 (fresh_app_l _ _ _ HF2) (NoDup_app_l _ _ HN2) E2) as (d2 & Ei2 & HA2 & HG2).
-    destruct (kws_agree kws IHkws ns d2 kvs HLk HA2 (fresh_next _ _ _ _ HF2 HN2 HG2) (NoDup_app_r _ _ HN2) E3) as (d3 & Ei3 & HA3 & HG3).
-    exists v, d3. split; [|split; [apply rel_eq|split; [exact HA3|]]].
-    + rewrite (interp_call_unfold _ _ _ _ HLs), Ei1, (apply_allowed _ _ _ _ H). cbn [negb]. rewrite Ei2, Ei3, H. reflexivity.
-    + exact (grows_trans _ _ _ _ _ HG1 (grows_trans _ _ _ _ _ HG2 HG3)).
+    destruct (IHf false ns d fv HLf HA (fresh_app_l _ _ _ HF) HSf E1) as (fv' & Ei1 & Hr1). cbn in Hr1. subst fv'.
+    pose proof (fresh_app_r _ _ _ HF) as HF2.
+    exists v. split; [|apply rel_eq].
+    rewrite (interp_call_unfold _ _ _ _ HLs), Ei1, (apply_allowed _ _ _ _ H). cbn [negb].
+    rewrite (seq_agree args IHargs ns d vs HLa HA (fresh_app_l _ _ _ HF2) HSa E2).
+    rewrite (kws_agree kws IHkws ns d kvs HLk HA (fresh_app_r _ _ _ HF2) HSk E3), H. reflexivity.
   - (* any / all over a generator expression *)
-    apply andb_prop in HL. destruct HL as [HL HLg]. apply andb_prop in HL. destruct HL as [HLe HGe].
-    destruct gens as [|[x it cs] gs']; [discriminate HLg|].
-    apply andb_prop in HLg. destruct HLg as [HLg HBt]. apply andb_prop in HLg. destruct HLg as [HLit HLcs].
-    change (forallb cond_ok cs = true) in HLcs. change (forallb body_ok gs' = true) in HBt.
-    pose proof (Forall_inv IHgens) as Hhead. pose proof (Forall_inv_tail IHgens) as Htail.
-    cbn [Pcomp] in Hhead. destruct Hhead as [Hit Hcs].
-    pose proof (quant_gvars a elt x it cs gs' HGe HLcs HBt) as EQ. cbn [gvars] in EQ. rewrite EQ in HF, HN |- *. clear EQ.
-    assert (HFt : fresh d (x :: map comp_target gs')).
-    { intros y [Hy|Hy]; apply HF; [left; exact Hy|right; apply in_or_app; right; exact Hy]. }
-    assert (HNF : names_fresh ns (x :: map comp_target gs')).
-    { intros y Hy. destruct (HFt y Hy) as [H1 H2]. split; [exact (agree_none _ _ _ HA H1)|exact H2]. }
-    assert (HNDt : NoDup (x :: map comp_target gs')).
-    { inversion HN as [|? ? Hnx Hnr]; subst. constructor; [|exact (NoDup_app_r _ _ Hnr)].
-      intros Hin. apply Hnx. apply in_or_app. right; exact Hin. }
-    assert (HFi : fresh d (gvars it)).
-    { intros y Hy. apply HF. right. apply in_or_app. left; exact Hy. }
-    assert (HNi : NoDup (gvars it)) by (inversion HN; subst; eapply NoDup_app_l; eassumption).
+    apply andb_prop in HL. destruct HL as [HLe HLg].
+    apply andb_prop in HS. destruct HS as [HS HSg]. apply andb_prop in HS. destruct HS as [HS HSe].
+    apply andb_prop in HS. destruct HS as [HSn HSd].
+    set (XS := map comp_target gens) in *. set (G := gvars elt ++ flat_map comp_inner gens) in *.
+    assert (HLg' : forallb (fun g => match g with Comp _ it cs => lang false it && forallb (lang true) cs end) gens = true)
+      by (destruct gens; [discriminate HLg|exact HLg]).
+    assert (HFX : fresh d XS).
+    { intros y Hy. apply HF. apply in_or_app. left. apply gens_gvars_in. left; exact Hy. }
+    assert (HFG : fresh d G).
+    { intros y Hy. apply HF. unfold G in Hy. apply in_app_or in Hy. destruct Hy as [Hy|Hy];
+        apply in_or_app; [right; exact Hy|left; apply gens_gvars_in; right; exact Hy]. }
+    assert (HDJ : forall x, In x XS -> ~ In x G).
+    { intros x Hx. unfold disjointb in HSd. rewrite forallb_forall in HSd. specialize (HSd x Hx).
+      apply negb_true_iff in HSd. exact (in_list_false _ _ HSd). }
+    assert (HNF : names_fresh ns XS).
+    { intros y Hy. destruct (HFX y Hy) as [H1 H2]. split; [exact (agree_none _ _ _ HA H1)|exact H2]. }
+    assert (HOK : Forall (comp_ok G) gens).
+    { apply Forall_forall. intros [x it cs] Hg. rewrite forallb_forall in HLg', HSg.
+      pose proof (HLg' _ Hg) as H1. pose proof (HSg _ Hg) as H2. cbn in H1, H2.
+      apply andb_prop in H1. destruct H1 as [H1a H1b]. apply andb_prop in H2. destruct H2 as [H2a H2b].
+      cbn [comp_ok]. repeat split; try assumption.
+      - intros y Hy. unfold G. apply in_or_app. right. apply in_flat_map. exists (Comp x it cs). split; [exact Hg|].
+        cbn [comp_inner]. apply in_or_app. left; exact Hy.
+      - intros y Hy. unfold G. apply in_or_app. right. apply in_flat_map. exists (Comp x it cs). split; [exact Hg|].
+        cbn [comp_inner]. apply in_or_app. right; exact Hy. }
+    assert (HGe : incl (gvars elt) G) by (intros y Hy; unfold G; apply in_or_app; left; exact Hy).
     destruct (py_name whitelist_roots ns (quant_name a)) as [fq|ex] eqn:EQN; [|discriminate H].
     assert (EQI : interp_name d (quant_name a) = Val fq) by exact (name_ok _ _ _ _ HA EQN).
     destruct fq as [| | | | | | | | | | |q|]; try discriminate H.
     destruct (String.eqb q (quant_name a)) eqn:EQq; [|discriminate H].
-    destruct (p_gens R py a elt (Comp x it cs :: gs') ns) as [| |ex] eqn:EG; try discriminate H.
-    all: destruct (gens_step a elt x it cs gs' Hit Hcs HLit HLcs (gens_tail a elt IHelt HLe HGe gs' Htail HBt)
-                     ns d _ HA HFi HNi HNF HNDt EG I) as (d' & Ei & HA' & HG').
-    all: exists v, d'; split; [|split; [apply rel_eq|split; [exact HA'|]]].
-    all: try (cbn [interp]; rewrite EQI; cbn [allowed_callable negb]; rewrite EQq; cbn [negb];
-              rewrite (targets_unbound d (Comp x it cs :: gs') HFt), Ei; exact (f_equal (fun r => (r, d')) H)).
-    all: apply (grows_incl _ _ _ _ HG'); intros y Hy; apply in_app_or in Hy; destruct Hy as [Hy|[Hy|Hy]];
-      [right; apply in_or_app; left; exact Hy|left; exact Hy|right; apply in_or_app; right; exact Hy].
+    destruct (p_gens R py a elt gens ns) as [| |ex] eqn:EG; try discriminate H.
+    all: destruct (gens_agree a elt G IHelt HLe HSe HGe gens IHgens HOK ns d _ HA HFG HNF (nodupb_NoDup _ HSn) HDJ EG I)
+           as (d' & Ei & HE).
+    all: exists v; split; [|apply rel_eq].
+    all: cbn [interp]; rewrite EQI; cbn [allowed_callable negb]; rewrite EQq; cbn [negb];
+         rewrite (targets_unbound d gens HFX), Ei, Hscoped;
+         rewrite (remove_ext (map comp_target gens) d d' (fun x Hx => proj1 (HFX x Hx)) HE); exact (f_equal (fun r => (r, d)) H).
   - (* other node kinds are not in the language *) discriminate HL.
 Qed.
 End Agreement.
 
 (* ================= top-level statements ================= *)
-Definition facts_ok (F : facts) : bool := chained F && ifs_honoured F && tm_keeps_attrs F.
+Definition facts_ok (F : facts) : bool :=
+  chained F && ifs_honoured F && tm_keeps_attrs F && genvars_scoped F && binop_lookup_first F.
 
 Lemma agree_refl d : agree d d.
 Proof. split; auto. Qed.
 
-Lemma nodupb_NoDup l : nodupb l = true -> NoDup l.
+Lemma fresh_vars_spec e : fresh_vars e = true -> fresh std_data (gvars e) /\ scoped e = true.
 Proof.
-  induction l as [|x l IH]; cbn; intros H; [constructor|]. apply andb_prop in H. destruct H as [H1 H2].
-  constructor; [|exact (IH H2)]. intros Hin. apply negb_true_iff in H1.
-  assert (E : in_list x l = true).
-  { unfold in_list. apply existsb_exists. exists x. split; [exact Hin|apply String.eqb_refl]. }
-  rewrite E in H1. discriminate.
-Qed.
-
-Lemma fresh_vars_spec e : fresh_vars e = true -> fresh std_data (gvars e) /\ NoDup (gvars e).
-Proof.
-  unfold fresh_vars. intros H. apply andb_prop in H. destruct H as [H1 H2]. split; [|exact (nodupb_NoDup _ H1)].
+  unfold fresh_vars. intros H. apply andb_prop in H. destruct H as [H1 H2]. split; [|exact H1].
   intros x Hx. rewrite forallb_forall in H2. specialize (H2 x Hx). apply andb_prop in H2. destruct H2 as [H2 H3].
   apply negb_true_iff in H2, H3. split; [|exact H3]. unfold in_dom in H2. destruct (lookup x std_data); [discriminate|reflexivity].
 Qed.
+
+Lemma facts_ok_inv F : facts_ok F = true ->
+  chained F = true /\ ifs_honoured F = true /\ tm_keeps_attrs F = true /\ genvars_scoped F = true /\ binop_lookup_first F = true.
+Proof. unfold facts_ok. intros H. repeat (apply andb_prop in H; destruct H as [H ?]). repeat split; assumption. Qed.
 
 Theorem interpreted_correct F R e v :
   facts_ok F = true -> in_language e = true -> fresh_vars e = true ->
@@ -721,9 +706,9 @@ Theorem interpreted_correct F R e v :
   (exists v', fst (interp F R std_data e) = Val v' /\ truthy v' = truthy v) /\
   py_eval_gen R whitelist_roots false true false std_data e = Val v.
 Proof.
-  intros HFo HL HFv H. apply andb_prop in HFo. destruct HFo as [HFo Hk]. apply andb_prop in HFo. destruct HFo as [Hc Hi].
-  destruct (fresh_vars_spec e HFv) as [Hf Hn].
-  destruct (interp_agrees F Hc Hi Hk R e true std_data std_data v HL (agree_refl _) Hf Hn H) as (v' & d' & Ei & Hr & _).
+  intros HFo HL HFv H. destruct (facts_ok_inv F HFo) as (Hc & Hi & Hk & Hs & _).
+  destruct (fresh_vars_spec e HFv) as [Hf Hsc].
+  destruct (interp_agrees F Hc Hi Hk Hs R e true std_data std_data v HL (agree_refl _) Hf Hsc H) as (v' & Ei & Hr).
   split; [|exact (strict_is_python R whitelist_roots false true e std_data v H)].
   exists v'. rewrite Ei. split; [reflexivity|exact Hr].
 Qed.
@@ -733,10 +718,22 @@ Theorem interpreted_values F R e v :
   py_eval_gen R whitelist_roots false true true std_data e = Val v ->
   fst (interp F R std_data e) = Val v /\ py_eval_gen R whitelist_roots false true false std_data e = Val v.
 Proof.
-  intros HFo HL HFv H. apply andb_prop in HFo. destruct HFo as [HFo Hk]. apply andb_prop in HFo. destruct HFo as [Hc Hi].
-  destruct (fresh_vars_spec e HFv) as [Hf Hn].
-  destruct (interp_agrees F Hc Hi Hk R e false std_data std_data v HL (agree_refl _) Hf Hn H) as (v' & d' & Ei & Hr & _).
+  intros HFo HL HFv H. destruct (facts_ok_inv F HFo) as (Hc & Hi & Hk & Hs & _).
+  destruct (fresh_vars_spec e HFv) as [Hf Hsc].
+  destruct (interp_agrees F Hc Hi Hk Hs R e false std_data std_data v HL (agree_refl _) Hf Hsc H) as (v' & Ei & Hr).
   cbn in Hr. subst v'. split; [rewrite Ei; reflexivity|exact (strict_is_python R whitelist_roots false true e std_data v H)].
+Qed.
+
+(* the namespace is the same again after a successful evaluation: generator variables do not leak *)
+Theorem interpreted_state_restored F R e v :
+  facts_ok F = true -> in_language e = true -> fresh_vars e = true ->
+  py_eval_gen R whitelist_roots false true true std_data e = Val v ->
+  snd (interp F R std_data e) = std_data.
+Proof.
+  intros HFo HL HFv H. destruct (facts_ok_inv F HFo) as (Hc & Hi & Hk & Hs & _).
+  destruct (fresh_vars_spec e HFv) as [Hf Hsc].
+  destruct (interp_agrees F Hc Hi Hk Hs R e true std_data std_data v HL (agree_refl _) Hf Hsc H) as (v' & Ei & _).
+  rewrite Ei. reflexivity.
 Qed.
 
 (* ---- rejected with an error ---- *)
@@ -754,21 +751,6 @@ Proof.
   - intros _. eexists; reflexivity.
 Qed.
 
-Definition unsupported_binop (op : binop) : bool :=
-  match assoc (binop_kind op) operator_table with None => true | Some _ => false end.
-
-Lemma rejects_binop F R d op l r : unsupported_binop op = true ->
-  (exists x, fst (interp F R d (EBinOp op l r)) = Exc x) \/
-  (exists a d1 b d2, interp F R d l = (Val a, d1) /\ interp F R d1 r = (Val b, d2) /\
-                     is_missing a || is_missing b = true /\ fst (interp F R d (EBinOp op l r)) = Val (VBool false)).
-Proof.
-  intros HU. cbn [interp]. destruct (interp F R d l) as [[a|x] d1] eqn:E1; [|left; eexists; reflexivity].
-  destruct (interp F R d1 r) as [[b|x] d2] eqn:E2; [|left; eexists; reflexivity].
-  destruct (is_missing a || is_missing b) eqn:EM.
-  - right. exists a, d1, b, d2. repeat split; try assumption; reflexivity.
-  - left. unfold table_op2. unfold unsupported_binop in HU. destruct (assoc (binop_kind op) operator_table); [discriminate|].
-    eexists; reflexivity.
-Qed.
-
-Lemma unsupported_binops : forall op, unsupported_binop op = negb (lang_binop op).
-Proof. destruct op; reflexivity. Qed.
+Lemma rejects_binop F R d op l r : binop_lookup_first F = true -> lang_binop op = false ->
+  fst (interp F R d (EBinOp op l r)) = Exc EKeyError.
+Proof. intros HF H. cbn [interp]. rewrite HF. destruct op; try discriminate H; reflexivity. Qed.
